@@ -1,0 +1,49 @@
+//go:build verif
+
+package controlmessage
+
+// Machine-checked contracts for /verif (govc). Comment-only: compiled only with -tags verif, adds no code.
+
+// C35 / C32 (safety half): decoding arbitrary bytes received from a MoQ peer - before any authentication -
+// never indexes or slices out of range, never converts a length into a negative size and never asserts a wrong
+// type, and every make() size is bounded by the protocol limit that guards it.
+
+//@ func (m *Setup) unmarshal
+//@   property C35, C32
+//@   safety alloc-bound, -ovf
+
+//@ func (m *ClientSetup) unmarshal
+//@   property C35, C32
+//@   safety alloc-bound, -ovf
+
+//@ func (m *ServerSetup) unmarshal
+//@   property C35, C32
+//@   safety alloc-bound, -ovf
+
+//@ func (m *Subscribe) unmarshal
+//@   property C35, C32
+//@   safety alloc-bound, -ovf
+
+//@ func (m *SubscribeOk) unmarshal
+//@   property C35, C32
+//@   safety alloc-bound, -ovf
+
+//@ func (m *RequestError) unmarshal
+//@   property C35, C32
+//@   safety alloc-bound, -ovf
+
+//@ func (m *Publish) unmarshal
+//@   property C35, C32
+//@   safety alloc-bound, -ovf
+
+//@ func (m *PublishOk) unmarshal
+//@   property C35, C32
+//@   safety alloc-bound, -ovf
+
+//@ func (m *RequestOk) unmarshal
+//@   property C35, C32
+//@   safety alloc-bound, -ovf
+
+//@ func Read
+//@   property C35, C32
+//@   safety alloc-bound, -ovf
